@@ -78,6 +78,12 @@ GETTERS: dict[str, Callable[[W], Any]] = {
 }
 
 
+def _optimize_tell(w: W, value: Any) -> None:
+    from optuna.study._tell import _tell_with_warning
+
+    _tell_with_warning(study=w.study, trial=w.tr, value_or_values=value, state=None, suppress_warning=True)
+
+
 def _add_trial(w: W) -> None:
     w.study.add_trial(optuna.trial.create_trial(params={"x": 0.75}, distributions={"x": FloatDistribution(0, 1)}, value=0.1))
 
@@ -102,6 +108,11 @@ SETTERS: dict[str, Callable[[W], Any]] = {
     "study.set_user_attr": lambda w: w.study.set_user_attr("ua", {"k": [3]}),
     "study.set_user_attr(new key)": lambda w: w.study.set_user_attr("ub", 1),
     "study.tell": lambda w: w.study.tell(w.tr, 0.001),
+    # what Study.optimize does with an objective's return value (the public tell() never takes the
+    # suppress_warning branch): an unacceptable value fails the trial and records the warning
+    "optimize-tell(nan)": lambda w: _optimize_tell(w, float("nan")),
+    "optimize-tell(None)": lambda w: _optimize_tell(w, None),
+    "optimize-tell(1.0)": lambda w: _optimize_tell(w, 1.0),
     "study.enqueue_trial": lambda w: w.study.enqueue_trial({"x": 0.5}),
     "study.add_trial": _add_trial,
     "study.ask": lambda w: w.study.ask(),
